@@ -89,7 +89,10 @@ def dyn_nl(record):
     return "{message}\n{exception}"
 def dyn_nonl(record):
     return "{message}"
-FORMATS = {"static": "{message}", "dyn_nl": dyn_nl, "dyn_nonl": dyn_nonl}
+def dyn_edge(record):
+    # a callable format may return anything: nothing at all, blanks, a template without line end
+    return ["", " ", "{message}", "{message}\n{exception}"][record["extra"]["i"] % 4]
+FORMATS = {"static": "{message}", "dyn_nl": dyn_nl, "dyn_nonl": dyn_nonl, "dyn_edge": dyn_edge}
 
 class Stream:
     encoding = "utf8"   # same exception-formatting symbols as the capture sink
@@ -474,6 +477,26 @@ def gen_messages(rng, n, rotation, raw_nl=True, allow_f7=False, small=False):
     return msgs
 
 
+# texts at the edge of what a sink can be handed: empty, blank, falsy-looking, bare line ends, no line end
+EDGE_RAW = ["", "", " ", "\t", "0", "None", "False", "True", "\n", "\r", "x", "é", "{}", " \n"]
+
+
+def gen_exit_messages(rng, n, rotation=False):
+    """programs for the exit clause: ordinary calls mixed with raw calls whose text is empty, blank or has
+    no line end - whatever was accepted by a logging call that returned must be in the sink after the exit"""
+    msgs = []
+    for i in range(n):
+        if rng.chance(40):
+            t = rng.choice(EDGE_RAW)
+            msgs.append({"text": t, "raw": True,
+                         "shape": "raw-empty" if t == "" else ("raw-blank" if t.strip() == "" else "raw-edge")})
+        else:
+            msgs += gen_messages(rng, 1, False)
+        if rotation and i > 0 and rng.chance(40):
+            msgs[-1]["rot"] = True
+    return msgs
+
+
 def file_sink(**kw):
     d = {"name": "F", "kind": "file", "path": "F.log"}
     d.update(kw)
@@ -524,8 +547,11 @@ def gen_stream_messages(rng, n):
         if r < 4:
             msgs += gen_messages(rng, 1, False)
         elif r < 7:
-            kind, text = rng.choice(SHAPES[:1] + SHAPES[4:10])      # no interior line end
-            msgs.append({"text": text + " #%d" % i, "raw": True, "shape": "raw-no-newline"})
+            if rng.chance(30):
+                msgs.append({"text": rng.choice(EDGE_RAW), "raw": True, "shape": "raw-edge"})
+            else:
+                kind, text = rng.choice(SHAPES[:1] + SHAPES[4:10])      # no interior line end
+                msgs.append({"text": text + " #%d" % i, "raw": True, "shape": "raw-no-newline"})
         elif r < 9:
             msgs += [{"text": t, "raw": True, "shape": "raw-no-newline"} for t in ("Loading #%d" % i, "...", "50%")]
         else:
@@ -635,16 +661,17 @@ def gen_cases(ctx):
     for mode in ("return", "sys_exit", "unhandled"):
         for enq in (False, True):
             for rep in range(ctx.n(1, 3) * boost):
-                msgs = gen_messages(rng, K, False, allow_f7=(rep % 2 == 1))
-                st = {"sinks": [file_sink(enqueue=enq, compression="gz"),
-                                stream_sink(enqueue=enq, stoppable=True, slow=0.03 if enq else 0)],
+                msgs = gen_exit_messages(rng, K)
+                fmt = "dyn_edge" if nexit % 3 == 2 else "static"
+                st = {"sinks": [file_sink(enqueue=enq, compression="gz", format=fmt),
+                                stream_sink(enqueue=enq, stoppable=True, slow=0.03 if enq else 0, format=fmt)],
                       "messages": msgs, "die": {"mode": mode}}
                 st.update(ENVIRONMENTS[nexit % 3])
                 nexit += 1
                 add("exit", [st])
     for enq in (False, True):
         # rotation configured: no end-of-life compression; the slow rotation callable keeps the queue busy
-        msgs = gen_messages(rng, K, True)
+        msgs = gen_exit_messages(rng, K, rotation=True)
         add("exit", [{"sinks": [file_sink(enqueue=enq, rotation=True, compression="gz", slow=0.02 if enq else 0)],
                       "messages": msgs, "die": {"mode": rng.choice(["return", "sys_exit", "unhandled"])}}])
         # end-of-life retention: two old files of the family are deleted at exit
@@ -660,7 +687,7 @@ def gen_cases(ctx):
         rng.shuffle(modes)
         for j, mode in enumerate(modes):
             n = rng.range(2, K)
-            msgs = gen_messages(rng, n, False, allow_f7=(j == 1))
+            msgs = gen_exit_messages(rng, n)
             fork = {"at": rng.choice([0, 0, rng.range(0, n)]), "launcher": ["leave", "wait"][(rep + j) % 2]}
             if j % 3 == 2:
                 sinks = [file_sink(retention=1), stream_sink(stoppable=True)]
